@@ -152,3 +152,10 @@ Print Assumptions C05_src_pin_linux_copy_file_bytes.
 Print Assumptions C05_src_pin_linux_copy_file_offset.
 Print Assumptions C05_src_pin_linux_reflink.
 Print Assumptions C05_src_pin_main_main.
+
+(* ---- parblock::queue_file_blocks, translated: the fallback when the extent map is unsupported (42 extent map, 43 merge, 44 queue a range, 45 queue the whole file) ---- *)
+From XcpModel Require Import Ops.
+From XcpProofs Require Import XOps.
+Theorem C05_src_queue_file_blocks_steps : x_queue_file_blocks_steps = queue_file_blocks_steps.
+Proof. exact x_queue_file_blocks_steps_ok. Qed.
+Print Assumptions C05_src_queue_file_blocks_steps.
